@@ -18,15 +18,16 @@ def anchor_patterns(prop):
 
 
 def run_monitors(ctx, res, monitors, spec_filter=None, prefixes=None, specs_override=None,
-                 resume_legs=(3, 6, 10, 15, 21)):
+                 resume_legs=(3, 6, 10, 15, 21), quiet=False):
     tier = "thorough" if ctx.thorough else "quick"
     sp = specs_override if specs_override is not None else specmod.families(tier)
     if spec_filter is not None:
         sp = [s for s in sp if spec_filter(s)]
     k = 2 if ctx.thorough else 1
-    baselines = [0, 1, 2, 3] if ctx.thorough else [0, 1 + ctx.seed % 3]
+    from ..envx import QUIET, BUSY
+    baselines = [0, 1, 2, 3, QUIET, BUSY] if ctx.thorough else [0, 1 + ctx.seed % 3] + ([QUIET] if quiet else [])
     bad, st = envdrive.explore(sp, monitors, 1, baselines, ctx.cores, derive=specmod.fast_variant,
-                              resume_legs=resume_legs)
+                              resume_legs=resume_legs, followup=True)
     sp = sp + st.get("derived_specs", [])
     if ctx.thorough:
         # two deviations around the constant-median baseline on the cheaper specs
@@ -90,14 +91,17 @@ def coverage(st, monitors, extra_rule=""):
         "rule": "one evaluation = one complete execution of the real mediator for H legs (25 shipped / 40 templates) "
                 "with every random draw answered from a scripted alphabet (expovariate: 2%/50%/98% quantile; uniform: "
                 "0.25/0.75; randint/choice: all values); all executions with <= k deviations from a baseline answer "
-                "function are enumerated (k=1 around each baseline; thorough: k=2 around the median baseline on specs "
-                "with <= 110 draws); monitors " + ", ".join(monitors) + " run on every leg / commit. "
+                "function are enumerated (k=1 around each baseline, plus follow-ups: a second deviation at every draw "
+                "of the same handler and leg that exists only because of the first one -- 'the event fires and is "
+                "rejected'; baselines: constant median, hashed mixtures, all-budgets-large (quiet), all-budgets-small "
+                "(busy, thorough); resume-at-leg-k as a further answer; thorough: k=2 around the median baseline on "
+                "specs with <= 110 draws); monitors " + ", ".join(monitors) + " run on every leg / commit. "
                 "distinct_nontrivial = distinct commit logs (handler, time, out-state) observed. " + extra_rule,
         "samples": [sample, {"committed_event_counts": dict(st["handlers"].most_common(12))}],
         "per_configuration": per, "capped": st["capped"], "exhaustive": not st["capped"],
         "float_ties_observed": st.get("float_ties", 0),
         "exceptions_in_code_not_anchored_by_this_property": dict(st.get("foreign_exceptions", {})),
-        "configurations": len(per),
+        "configurations": len(per), "followup_executions": st.get("followups", 0),
     }
 
 
